@@ -101,6 +101,10 @@ class Ctx:
         """Instance floor: a rule that matches fewer sites than confirmed by hand has gone blind."""
         self.floors.append({'rule': rule, 'what': what, 'count': count, 'floor': minimum})
         if count < minimum:
+            if any(f.rule == rule or f.rule.startswith(rule) or rule.startswith(f.rule) for f in self.findings):
+                self.notes.append(f'{rule}: instance floor for "{what}" not met ({count} < {minimum}) - the rule '
+                                  f'already reports violations, which explain the missing instances')
+                return
             raise AnalysisError(f'{rule}: instance floor not met for "{what}": {count} < {minimum} '
                                 f'(the anchor vanished or the rule no longer matches; refusing to pass vacuously)')
 
